@@ -129,7 +129,7 @@ Match ==
      ELSE /\ Line.effs = <<>> /\ Line.log = <<>>
           /\ UNCHANGED <<cvars, corevars>>
   /\ Line.xt = ExecTasks
-  /\ ("ops" \in DOMAIN Line /\ phase = "run") => Line.ops = OpsAlive + Cardinality(CoreEffects)
+  /\ ("ops" \in DOMAIN Line /\ phase = "run") => Line.ops <= OpsAlive + Cardinality(CoreEffects)
   /\ IF \E t \in Live(St) : FlatStuck(St, t) THEN TLCSet(4, TLCGet(4) + 1) ELSE TRUE
   /\ ("alive" \in DOMAIN Line) => Range(Line.alive) = ScriptTasksAlive
   /\ IsBridge => RegObs = RegOf(registry')
